@@ -51,7 +51,13 @@ def rule_ops_forward(prop, repo, types=None):
             assign = tr.endswith("Assign")
             v = tb.final_value(("deref", 1)) if assign else tb.return_value()
             nargs = 1 if op == "neg" else 2
-            ok, why = shared.forwards(repo, b, lambda val: forward_ok(repo, b, val, op, nargs), op, ("deref", 1) if assign else 0)
+            def either(val, b=b, op=op, nargs=nargs):
+                r = forward_ok(repo, b, val, op, nargs)
+                if r[0]:
+                    return r
+                r2 = inplace_ok(repo, b, val, op, nargs)      # the operator impl itself is the newtype / component-wise form
+                return r2 if r2[0] else r
+            ok, why = shared.forwards(repo, b, either, op, ("deref", 1) if assign else 0)
             R.check(ok, "%s:ops:%s" % (prop, item), "%s does not forward to `%s` on (self%s) in order: %s" % (item, op, ", rhs" if nargs == 2 else "", why), b.file_line(), item,
                     sample={"impl": item, "forwards": show(v, maxdepth=2)[:120]} if R.instances % 25 == 1 else None)
     # the *_inplace functions themselves
